@@ -34,6 +34,12 @@ Nothing is written inside the tracked tree: all files go to `wd`
                                         "CircularBuffer::push_back", "slice_take": "slice_take@stable",
                                         "io_write": "<CircularBuffer as Write>::write",
       "conditional": {f: "lemma : statement"}   what is proved instead for the functions of DISCREPANCY,
+      "covered_items": {item: f}        source items without a function of their own here (the destructors of structs
+                                        declared inside a function), by the translated function they are part of,
+      "std_table":  [[source form, rendering], ...]   every function / adaptor of std the translation gives a meaning
+                                        (tools/rs2coq_core/src/stdtab.rs): part of the trusted base; a std call that is
+                                        not in it is refused where it occurs (file:line:column, under "skipped"),
+      "preconditions": {f: hypothesis of gen_f_eq},
       "generated_sha256": sha256 of CoreGen.v,
       "wall_s":     seconds,
       + "calls" {f: [callees]}, "hand_callees" {f: [untranslated callees whose
@@ -57,7 +63,7 @@ TOOL_DIR = os.path.join(E.VERIF, "tools", "rs2coq_core")
 TEMPLATE = os.path.join(E.COQ, "gen", "CoreGenProofs.v")
 ARITH = ["add_mod", "sub_mod"]
 JOBS = 8
-THEORIES = ["Machine", "Buf", "Iter", "Drain", "Traits", "Io"]
+THEORIES = ["Machine", "Buf", "Iter", "Drain", "Traits", "Io", "System", "Unstable"]
 
 # statements that are not of the general form (see expected_statement)
 SPECIAL = {
@@ -65,6 +71,37 @@ SPECIAL = {
     "CircularSlicePtr_new": "forall (n : Z) (s : cbuf) (w : world), "
                             "gen_CircularSlicePtr_new {| soff := 0; slen := n |} s w = ret (csp_new n) s w",
 }
+# functions without a definition of their own in the model: the statement is written with the model's functions
+SPECIAL.update({
+    "Iter_size_hint": "forall (x1 : iter) (s : cbuf) (w : world), "
+                      "gen_Iter_size_hint x1 s w = (n <- iter_len x1;; ret (n, Some n)) s w",
+    "IterMut_size_hint": "forall (x1 : iter) (s : cbuf) (w : world), "
+                         "gen_IterMut_size_hint x1 s w = (n <- iter_mut_len x1;; ret (n, Some n)) s w",
+    "IntoIter_size_hint": "forall (s : cbuf) (w : world), "
+                          "gen_IntoIter_size_hint s w = (n <- into_iter_len;; ret (n, Some n)) s w",
+    "Drain_size_hint": "forall (x1 : drain) (s : cbuf) (w : world), "
+                       "gen_Drain_size_hint x1 s w = ret (drain_len x1, Some (drain_len x1)) s w",
+    "CircularSlicePtr_clone": "forall (x1 : csp) (s : cbuf) (w : world), gen_CircularSlicePtr_clone x1 s w = ret x1 s w",
+    "slice_assume_init_ref": "forall (x1 : slice) (s : cbuf) (w : world), gen_slice_assume_init_ref x1 s w = ret x1 s w",
+    "slice_assume_init_mut": "forall (x1 : slice) (s : cbuf) (w : world), gen_slice_assume_init_mut x1 s w = ret x1 s w",
+    # a constructor initialises the memory that receives its result (a state of the capacity of the type, otherwise arbitrary)
+    "new": "forall (s : cbuf) (w : world), gen_new s w = (Ok tt, new_buf (cap s) (items s), w)",
+    "default": "forall (s : cbuf) (w : world), gen_default s w = (Ok tt, default_buf (cap s) (items s), w)",
+})
+# a value of a type I: IntoIterator is rendered as the function that runs a closure on every item: the model's extend /
+# extend_ref / from_iter are about particular iterators (a user iterator that owns the items; borrowed Copy elements)
+SPECIAL.update({
+    "extend": "forall (x1 : list elem) (s : cbuf) (w : world), gen_extend (gen_user_for_each x1) s w = extend x1 s w",
+    "extend_ref": "forall (x1 : list elem) (s : cbuf) (w : world), "
+                  "gen_extend_ref (gen_refs_for_each x1) s w = extend_ref x1 s w",
+    # a constructor runs on the memory that receives its result, whatever it holds (sz, st, junk)
+    # the memory that receives the clone is a parameter of gen_clone
+    "clone": "forall (sz st : Z) (junk : store) (s : cbuf) (w : world), "
+             "gen_clone {| cap := cap s; size := sz; start := st; items := junk |} s w = clone_buf junk s w",
+    "from_iter": "forall (n sz st : Z) (junk : store) (x1 : list elem) (s : cbuf) (w : world), "
+                 "(x <- with_buf {| cap := n; size := sz; start := st; items := junk |} (gen_from_iter (gen_user_for_each x1));; "
+                 "(let (_, b) := x in ret b)) s w = from_iter n junk x1 s w",
+})
 for _p in ("io", "eio", "aio"):
     # the model hands back (count, bytes); the translation (bytes, count): `&mut` parameters come first
     SPECIAL[_p + "_read"] = ("forall (x1 : list elem) (s : cbuf) (w : world), "
@@ -236,13 +273,20 @@ def transitive(calls, f):
     return seen
 
 
+# lemmas a proof imports beyond those of the functions f calls: the functions that stay folded in it (see traits_eq)
+IMPORTS = {f: ["as_slices"] for f in ("buf_fmt", "buf_hash", "buf_partial_cmp", "buf_cmp", "buf_eq", "buf_eq_slice", "Iter_fmt")}
+IMPORTS["from_iter"] = ["extend"]      # gen_user_for_each_push
+IMPORTS["clone"] = ["new", "buf_drop", "push_back"]
+
+
 def needed(t, calls, loops):
     """the functions whose compiled lemmas the proof of f imports: the ones f calls, and among the
     ones those call, the ones that are never opened (the arithmetic functions, the owners of loops)"""
     f = t["name"]
     direct = list(calls.get(f, []))
     rest = [g for g in transitive(calls, f) if g not in direct and g != f and (g in ARITH or loops.get(g))]
-    return direct + rest
+    extra = [g for g in IMPORTS.get(f, []) if g not in direct and g not in rest and g in calls]
+    return direct + rest + extra
 
 
 def prove_one(wd, t, parts, calls, loops, waits):
@@ -374,6 +418,11 @@ def run(wd=None):
     res["hand_callees"] = {x["name"]: x["hand_callees"] for x in summary["translated"] if x["hand_callees"]}
     # the name tools/srcmap gives the source item of every function this tool knows (translated or not)
     res["items"] = dict(summary.get("items", {}))
+    # source items without a function of their own here (the destructors of structs declared inside a function), by
+    # the translated function whose text they are part of
+    res["covered_items"] = dict(summary.get("covered_items", {}))
+    # the renderings of std the translation relies on: part of the trusted base
+    res["std_table"] = summary.get("std_table", [])
     res["hand"] = {x["name"]: x["hand"] for x in summary["translated"]}
     res["preconditions"] = {f: c for f, c in PRECOND.items() if f in res["translated"]}
     gtext = read(gen)
